@@ -1017,7 +1017,7 @@ class Gen:
         if k == "meta":
             if not ids:
                 return
-            mo = rng.choice([["set", "k", 1], ["set", "k", None], ["set", "j", "v"], ["clear", None], ["clear", "k"],
+            mo = rng.choice([["set", "k", 1], ["set", "k", None], ["set", "j", "v"], ["clear", None], ["clear", "k"], ["set", "", 2], ["clear", ""],
                              ["update", {"z": 1, "k": 2}, False], ["update", {"z": 3}, True], ["update", {}, True]])
             return self.do(["meta", ti, rng.choice(ids), mo])
         if k == "filter":
@@ -1215,7 +1215,7 @@ def gen_shapes(shapes, *, labelings=("distinct", "equal"), typed=(False,), famil
             mk_univ, labeler = LABELINGS[lname]
             for ty in typed:
                 univ = mk_univ(n)
-                nodes = B.shape_to_nodes(shape, (lambda i, d, s: (labeler(i, d, s)[0], "k1" if ty else None, labeler(i, d, s)[2])))
+                nodes = B.shape_to_nodes(shape, (lambda i, d, s: (labeler(i, d, s)[0], ("k1", "k2")[s % 2] if ty else None, labeler(i, d, s)[2])))
                 setup = [["new", ty, None]] + setup_ops(nodes, 0, ty)
                 yield dict(univ=univ, setup=setup, alts=single_ops(nodes, univ, ty, families), label=lname + "/extra", n=n)
 
@@ -1248,7 +1248,7 @@ def gen_exhaustive(nmax, *, labelings=("distinct", "equal", "clones"), typed=(Fa
                 mk_univ, labeler = LABELINGS[lname]
                 for ty in typed:
                     univ = mk_univ(n)
-                    nodes = B.shape_to_nodes(shape, (lambda i, d, s: (labeler(i, d, s)[0], "k1" if ty else None, labeler(i, d, s)[2])))
+                    nodes = B.shape_to_nodes(shape, (lambda i, d, s: (labeler(i, d, s)[0], ("k1", "k2")[s % 2] if ty else None, labeler(i, d, s)[2])))
                     setup = [["new", ty, None]] + setup_ops(nodes, 0, ty)
                     if lname == "clones":
                         # a labeling that collides under one parent is not a constructible tree
@@ -1340,6 +1340,8 @@ def renumber(op, dropped):
 # Minimal witnesses of repaired defects (each fails an oracle on the unchanged code)
 # ---------------------------------------------------------------------------
 CORPUS: list = [
+ {"id": "D03b", "univ": ["s:a", "s:b", "s:c"], "ops": [["new", False, None], ["add", 0, 0, 0, None, None, None], ["add", 0, 1, 1, None, None, None], ["add", 0, 2, 0, None, None, None], ["add", 0, 0, 2, None, None, None], ["add", 0, 4, 0, None, None, None], ["remove", 0, 5, False, True]]},
+ {"id": "R-meta", "univ": ["s:a"], "ops": [["new", False, None], ["add", 0, 0, 0, None, None, None], ["meta", 0, 1, ["set", "k", 1]], ["meta", 0, 1, ["set", "", 2]], ["meta", 0, 1, ["clear", ""]], ["meta", 0, 1, ["update", {}, True]], ["meta", 0, 1, ["update", {"z": 1}, False]], ["meta", 0, 1, ["set", "z", None]]]},
  {"id": "D70", "univ": ["s:a", "s:b", "s:x", "s:y"], "ops": [["new", False, None], ["new", False, None], ["add", 0, 0, 0, None, None, None], ["add", 0, 0, 1, None, None, None], ["add", 1, 0, 2, None, None, None], ["add", 1, 0, 3, None, None, None], ["addtree", 1, 0, 0, {"n": 4}, None]]},
  {"id": "D48", "univ": ["s:a", "s:b"], "ops": [["new", False, None], ["add", 0, 0, 0, None, None, None], ["from_dict", 0, 1, [[1, None, []], [1, None, []]]]]},
  {
